@@ -438,6 +438,62 @@ fn parser_adf(nmax: usize, depth: u32) -> BoxedStrategy<Vec<F>> {
         .boxed()
 }
 
+/// Big texts: many statements, deeply nested conditions, long white-space runs, very long labels.
+fn big_text_case() -> BoxedStrategy<AdfCase> {
+    use crate::formula::F;
+    let many = (150usize..500, proptest::collection::vec((0u8..6, any::<u16>(), any::<u16>()), 500), any::<bool>()).prop_map(|(n, spec, shuffled)| {
+        let acs: Vec<F> = (0..n)
+            .map(|i| {
+                let (k, a, b) = spec[i % spec.len()];
+                let x = F::Atom((i + 1 + a as usize % 5) % n);
+                let y = F::Atom((i + n - 1 - b as usize % 5) % n);
+                match k {
+                    0 => F::Top,
+                    1 => F::not(x),
+                    2 => F::and(x, F::not(y)),
+                    3 => F::imp(x, y),
+                    4 => F::xor(F::Atom(i), y),
+                    _ => F::or(x, F::iff(y, F::Atom(i))),
+                }
+            })
+            .collect();
+        let labels: Vec<String> = (0..n).map(|i| if i % 7 == 3 { format!("q {i}") } else { format!("g{i}") }).collect();
+        let keys: Vec<u16> = if shuffled { (0..2 * n).map(|i| stable_hash(&(i as u64, n as u64)) as u16).collect() } else { (0..2 * n as u16).collect() };
+        AdfCase { acs, labels, layout: gen::Layout { keys, ws: vec![0, 3, 1] } }
+    });
+    let deep = (2usize..5, 100usize..400, proptest::collection::vec((0u8..7, any::<u8>()), 400)).prop_map(|(n, depth, spec)| {
+        let mut acs: Vec<F> = (0..n).map(|i| F::Atom((i + 1) % n)).collect();
+        let mut f = F::Atom(0);
+        for d in 0..depth {
+            let (k, a) = spec[d % spec.len()];
+            let x = F::Atom(a as usize % n);
+            f = match k {
+                0 => F::not(f),
+                1 => F::and(x, f),
+                2 => F::or(f, x),
+                3 => F::imp(f, x),
+                4 => F::imp(x, f),
+                5 => F::iff(x, f),
+                _ => F::xor(f, x),
+            };
+        }
+        acs[0] = f;
+        AdfCase { acs, labels: (0..n).map(|i| format!("d{i}")).collect(), layout: gen::Layout { keys: (0..2 * n as u16).collect(), ws: vec![0] } }
+    });
+    let spaced = (gen::adf_case(parser_adf(5, 4), LabelClass::Quoted), proptest::collection::vec(prop_oneof![3 => 0u8..8, 2 => 8u8..10], 3..12)).prop_map(|(mut c, ws)| {
+        c.layout.ws = ws;
+        c
+    });
+    let long_labels = (gen::adf_case(parser_adf(4, 4), LabelClass::Alnum), 500usize..3000, any::<bool>()).prop_map(|(mut c, len, quoted)| {
+        for (i, l) in c.labels.iter_mut().enumerate() {
+            let body: String = (0..len).map(|j| (b'a' + ((i * 7 + j * 3) % 26) as u8) as char).collect();
+            *l = if quoted { format!("{body} {i}") } else { format!("{body}{i}") };
+        }
+        c
+    });
+    prop_oneof![many, deep, spaced, long_labels].boxed()
+}
+
 pub fn c08(tier: Tier) -> PropSpec {
     PropSpec {
         id: "C08",
@@ -465,6 +521,8 @@ pub fn c08(tier: Tier) -> PropSpec {
                 || gen::adf_case(parser_adf(12, 12), LabelClass::Hostile),
                 c08_accept,
             ),
+            // size: 150..500 statements, nesting depth 100..400, white-space runs of hundreds of characters, labels of thousands
+            Part::with_shrink("accept-big", tier.pick(2000, 20000), 100, big_text_case, c08_accept),
             Part::new(
                 "reject",
                 tier.pick(60000, 600000),
